@@ -363,6 +363,17 @@ Proof.
   right. inversion H'; subst; eauto 6.
 Qed.
 
+(* hence the capacity plugin's hierarchy build does not abort on it *)
+Theorem shape_capacity_ready c Q : ShapeInv c Q -> capacity_ready Q = true.
+Proof.
+  intros Hs. unfold capacity_ready. apply map_allb_spec. intros n s Hn.
+  destruct (decide (n = root)) as [->|Hr]; [by rewrite bool_decide_eq_true_2|].
+  rewrite (bool_decide_eq_false_2 (n = root)) by done. simpl. apply bool_decide_eq_true.
+  destruct (shape_parent_exists c Q n s Hs Hn Hr) as [Ht|(p & ps & Hp & _ & Hq)].
+  - destruct (qparent s) as [p|]; simpl; [apply is_top_some in Ht; subst|]; apply Hs.
+  - rewrite Hp. simpl. eauto.
+Qed.
+
 (* ================= per-queue resources ================= *)
 
 Definition QueueOk (s : qspec) : Prop :=
